@@ -90,14 +90,14 @@ TipsBq == {f \in [HB -> {"g", "t1", "a3"}] : f["p"] = "a3" /\ f["v"] # "a3"}
 \* ---- edge export (Leg R): printed once per explored transition, evaluated as ACTION_CONSTRAINT.
 \* The complete state is printed (the replay driver computes quiescent macro-steps on it and the Go
 \* harness compares the projection tip / known / link / banned with the real nodes).
-Full(k, t, l, r, se, sy, b) ==
-    [tip |-> t, htip |-> htip, known |-> k, link |-> [n \in H |-> [p \in Nodes \ {n} |-> l[<<n, p>>]]],
+Full(k, t, ht, l, r, se, sy, b) ==
+    [tip |-> t, htip |-> ht, known |-> k, link |-> [n \in H |-> [p \in Nodes \ {n} |-> l[<<n, p>>]]],
      round |-> r, seen |-> se,
      sync |-> [n \in H |-> [on |-> sy[n].on, src |-> sy[n].src, base |-> sy[n].base, top |-> sy[n].top, nxt |-> sy[n].nxt, rem0 |-> sy[n].rem0]],
      banned |-> {x[1] \o ">" \o x[2] : x \in b}]
 EmitEdge ==
-    PrintT("EDGE " \o ToJson([from |-> Full(known, tip, link, round, seen, sync, banned), act |-> act',
-                              to |-> Full(known', tip', link', round', seen', sync', banned')]))
+    PrintT("EDGE " \o ToJson([from |-> Full(known, tip, htip, link, round, seen, sync, banned), act |-> act',
+                              to |-> Full(known', tip', htip', link', round', seen', sync', banned')]))
 
 \* Leg R, byzantine family: only the victim's sync loop runs; the honest peer p serves and handles relays
 AllBlocks == DOMAIN T.par
